@@ -130,6 +130,7 @@ func newCallsEnv(t *tr.Writer, c callsCase) *callsEnv {
 		return 0
 	}, "boom")
 	s.AddFunction(func(n int) []byte { return make([]byte, n) }, "big")
+	s.AddFunction(func(x int) int { time.Sleep(25 * time.Millisecond); return x + 1 }, "slow")
 	s.AddFunction(func(a int, b map[string]int) int { return a }, "typed")
 	s.Use(core.InvokeHandler(func(ctx context.Context, name string, args []interface{}, next core.NextInvokeHandler) ([]interface{}, error) {
 		if name == "pluginboom" {
@@ -638,8 +639,47 @@ func c11Child(t *tr.Writer, e *callsEnv, c callsCase) {
 	defer cl.Abort()
 	defer other.Abort()
 	sentinel(t, cl, "before")
+	// healthy calls in flight while the fault happens: on another connection always; on the same connection
+	// when the fault is the call's own (a panic, arguments that do not fit, an undecodable request), which
+	// must produce an error for that call and leave the connection alone
+	inflight := func(c *core.Client, where string) func() {
+		ch := make(chan bool, 1)
+		go func() {
+			defer func() {
+				if p := recover(); p != nil {
+					ch <- false
+				}
+			}()
+			res, err := c.Invoke("slow", []interface{}{41})
+			ch <- err == nil && len(res) == 1 && fmt.Sprint(res[0]) == "42"
+		}()
+		return func() {
+			select {
+			case ok := <-ch:
+				t.Emit(tr.Rec{"ev": "sentinel", "where": where, "ok": ok, "detail": ""})
+			case <-time.After(6 * time.Second):
+				t.Emit(tr.Rec{"ev": "sentinel", "where": where, "ok": false, "detail": "hang"})
+			}
+		}
+	}
+	ownFault := func(what string) bool {
+		for _, p := range []string{"function-panic", "invoke-plugin-panic", "missing-method-panic", "mismatched-arguments"} {
+			if strings.HasPrefix(what, p) {
+				return true
+			}
+		}
+		return false
+	}
 	fault := func(what string, f func() error) {
 		t.Emit(tr.Rec{"ev": "fault", "what": what})
+		waitOther := inflight(other, "other-client-in-flight-during-"+what)
+		waitSame := func() {}
+		if ownFault(what) {
+			waitSame = inflight(cl, "same-client-in-flight-during-"+what)
+		}
+		time.Sleep(4 * time.Millisecond) // the healthy calls are with the service now
+		defer waitSame()
+		defer waitOther()
 		done := make(chan error, 1)
 		go func() {
 			defer func() {
